@@ -248,6 +248,9 @@ class Model:
 def run(ctx) -> Report:
     rep = Report("C28")
     prog = ctx.prog
+    # the memo-key clause first: it needs no interpretation, and what it finds is reported even if a later clause cannot follow the code
+    from ..memokey import check_memo_keys, memo_rule  # noqa: F401
+    memo_rule(ctx, rep, "C28-key", ["ufl.action", "ufl.adjoint", "ufl.form", "ufl.algorithms.map_integrands"])
     Mo = Model(ctx)
     W, ip = Mo.W, Mo.ip
     V, U = Mo.V, Mo.U
@@ -446,5 +449,4 @@ def run(ctx) -> Report:
     ]
     from ..memokey import memo_rule
 
-    memo_rule(ctx, rep, "C28-key", ["ufl.action", "ufl.adjoint", "ufl.form", "ufl.algorithms.map_integrands"])
     return rep
